@@ -187,7 +187,7 @@ func runC10(c *fw.Ctx) {
 		O("a", spec.NilV(), "b", L(spec.NilV())),
 	}
 	c.Cases("pinned", len(pins), true, func(i int, r *rng.R) { c10Case(c, r, pins[i]) })
-	c.Cases("trees", c.N(800, 30000), false, func(i int, r *rng.R) {
+	c.Cases("trees", c.N(800, 300000), false, func(i int, r *rng.R) {
 		root := spec.List
 		if r.Bool() {
 			root = spec.Obj
